@@ -99,7 +99,7 @@ class ZipReader(AbstractReader):
                 'ZIP file %s open failure: %s' % (self._name, sys.exc_info()[1]))
 
             if not ignoreErrors:
-                self._pendingError = error.PySmiError('file %s access error: %s' % (self._name, sys.exc_info()[1]))
+                self._pendingError = 'file %s access error: %s' % (self._name, sys.exc_info()[1])
 
     def _readZipDirectory(self, fileObj):
 
@@ -175,7 +175,8 @@ class ZipReader(AbstractReader):
         debug.logger & debug.flagReader and debug.logger('looking for MIB %s at %s' % (mibname, self._name))
 
         if self._pendingError:
-            raise self._pendingError
+            # a new object every time: callers annotate what they catch
+            raise error.PySmiError(self._pendingError)
 
         if not self._members:
             raise error.PySmiReaderFileNotFoundError('source MIB %s not found' % mibname, reader=self)
